@@ -921,5 +921,36 @@ def r01_19(ctx):
     return r
 
 
+def r01_20(ctx):
+    """'including duplicated or late association-setup ... packets': the side that answered an INIT is not established until
+    the COOKIE ECHO arrives. DATA that overtakes a lost or delayed COOKIE ECHO was taken and acknowledged; a late copy of
+    the INIT (accepted, because the association is not up) then rewound the receive point behind it and the acknowledged
+    chunk never comes again. Decided: everything in handle_data that takes a chunk is on the
+    `awaiting_cookie_echo == false` edge (the flag of R01.19)."""
+    r = RuleResult("R01.20", "K1", "the side answering an INIT takes no DATA before the COOKIE ECHO")
+    b = ctx.body(S + "handle_data::{closure#0}")
+    r.scope.append(b.name)
+    sites = [(bi, "process_data_payload") for bi, t, p in b.calls() if p and p.endswith("::process_data_payload")]
+    sites += [(bi, "cumulative_tsn_ack.store") for bi, t, a in core.atomic_sites(b, "cumulative_tsn_ack", "store")]
+    r.need("sites taking a DATA chunk in handle_data", len(sites), 3)
+
+    def not_awaiting(term, meaning, *_):
+        t, neg = term, False
+        while t[0] == "un" and t[1] == "Not":
+            t, neg = t[2], not neg
+        if core.is_atomic_load(t, "awaiting_cookie_echo") and isinstance(meaning, bool):
+            return (meaning != neg) is False
+        return False
+    g = core.lift_guards(b, core.guard_edges(b, not_awaiting))
+    for bi, what in sites:
+        if g and core.k1(b, [bi], g)[bi] is None:
+            r.ok({"site": b.where(bi), "what": what, "cut_by": "awaiting_cookie_echo == false"})
+        else:
+            r.violate(b.name, "data-before-cookie-echo:%s" % what, b.where(bi),
+                      "handle_data takes a chunk (%s) although the COOKIE ECHO that establishes the association has not arrived: a late "
+                      "copy of the INIT then rewinds the receive point behind acknowledged DATA" % what)
+    return r
+
+
 def run(ctx):
-    return [r01_17(ctx), r01_18(ctx), r01_19(ctx), r01_1(ctx), r01_2(ctx), r01_3(ctx), r01_4(ctx), r01_5(ctx), r01_6(ctx), r01_7(ctx), r01_8(ctx), r01_9(ctx), r01_10(ctx), r01_11(ctx), r01_12(ctx), r01_13(ctx), r01_14(ctx), r01_15(ctx), r01_16(ctx)]
+    return [r01_17(ctx), r01_18(ctx), r01_19(ctx), r01_1(ctx), r01_2(ctx), r01_3(ctx), r01_4(ctx), r01_5(ctx), r01_6(ctx), r01_7(ctx), r01_8(ctx), r01_9(ctx), r01_10(ctx), r01_11(ctx), r01_12(ctx), r01_13(ctx), r01_14(ctx), r01_15(ctx), r01_16(ctx), r01_20(ctx)]
